@@ -404,6 +404,23 @@ var Items = []Item{
 	// append with several values
 	{ID: "append-two-values", Setup: "s := make([]uint64, 1)", Core: "s2 := append(s, 4, 5)\n\tr = uint64(len(s2))*100 + s2[1]*10 + s2[2]"},
 	{ID: "append-no-values-after-spread", Setup: "s := make([]uint64, 1)\n\tt := make([]uint64, 2)", Core: "s2 := append(s, t...)\n\tr = uint64(len(s2))"},
+	// range over a string × loop-variable form × text (runes, not bytes; seeded change C02-17)
+	{ID: "range-string-index-only-non-ascii", Setup: "s := \"héllo😀\"", Core: "for i := range s {\n\t\tr = r*2 + uint64(i) + 1\n\t}", NoCtx: true},
+	{ID: "range-string-index-blank-value-non-ascii", Setup: "s := \"日本\"", Core: "for i, _ := range s {\n\t\tr = r*10 + uint64(i) + 1\n\t}", NoCtx: true},
+	{ID: "range-string-no-variables-non-ascii", Setup: "s := \"héé\"", Core: "for range s {\n\t\tr = r + 1\n\t}", NoCtx: true},
+	{ID: "range-string-index-only-ascii", Setup: "s := \"abc\"", Core: "for i := range s {\n\t\tr = r*2 + uint64(i) + 1\n\t}", NoCtx: true},
+	{ID: "range-string-value-non-ascii", Setup: "s := \"aé\"", Core: "for _, c := range s {\n\t\tr = r*1000 + uint64(c)\n\t}", NoCtx: true},
+	{ID: "string-compare-less", Setup: "a := \"abc\"\n\tb := \"abd\"", Core: "if a < b {\n\t\tr = 1\n\t}\n\tif b > a {\n\t\tr += 2\n\t}"},
+	{ID: "string-index-last-byte-non-ascii", Setup: "s := \"aé\"", Core: "r = uint64(s[uint64(len(s))-1])"},
+	{ID: "string-of-rune-value", Setup: "var c rune = 233", Core: "s := string(c)\n\tr = uint64(len(s))", NoCtx: true},
+	// assignment to a package-level variable × where the assignment stands (seeded changes C07-11, C02-16)
+	{ID: "assign-global-direct", Decls: "var gv%N% uint64 = 1", Core: "gv%N% = 5\n\tr = gv%N%"},
+	{ID: "assign-global-in-closure", Decls: "var gw%N% uint64 = 1", Core: "f := func() {\n\t\tgw%N% = 7\n\t}\n\tf()\n\tr = gw%N%", NoCtx: true},
+	{ID: "assign-global-in-returned-closure", Decls: "var gx%N% uint64 = 1\n\nfunc later%N%(v uint64) func() {\n\treturn func() {\n\t\tgx%N% = v\n\t}\n}", Core: "later%N%(9)()\n\tr = gx%N%"},
+	{ID: "opassign-global-in-function", Decls: "var gy%N% uint64 = 1\n\nfunc bumpg%N%() uint64 {\n\tgy%N% += 2\n\treturn gy%N%\n}", Core: "r = bumpg%N%()*10 + bumpg%N%()"},
+	{ID: "global-without-value-written-then-read", Decls: "var gz%N% uint64\n\nfunc setg%N%(v uint64) {\n\tgz%N% = v\n}", Core: "setg%N%(4)\n\tr = gz%N% + 1"},
+	{ID: "global-pointer-contents-mutated", Decls: "var gp%N% *uint64 = new(uint64)", Core: "*gp%N% = 6\n\tr = *gp%N% + 1"},
+	{ID: "global-initialised-by-effectful-call-read-twice", Decls: "func fresh%N%() *uint64 {\n\treturn new(uint64)\n}\n\nvar gq%N% *uint64 = fresh%N%()", Core: "p := gq%N%\n\t*p = 8\n\tr = *gq%N%"},
 	// builtins with fewer explicit arguments than operands: append(s), and a multi-valued call that supplies
 	// both operands (reported by the seed agent of C07-8: copy(g()) made goose panic)
 	{ID: "append-single-argument", Setup: "s := make([]uint64, 2)", Core: "s2 := append(s)\n\tr = uint64(len(s2))"},
